@@ -17,9 +17,13 @@ E = enums
 W.use_rsa_pool()
 
 
+TEAM_POLICY = {'groups': {'g1': {ot: {op: E.Policy.ALLOW_ALL for op in E.Operation}
+                                 for ot in E.ObjectType}}}
+
+
 def _seed_world():
     """Initial store: objects that later requests can address."""
-    w = W.World()
+    w = W.World(policies=W.default_policies({'team': TEAM_POLICY}))
     # 1: alice's AES key, active, derive/encrypt/decrypt/mac masks
     w.do((1, 2), W.p_register(W.pie_symmetric(), [W.attr(W.AT.CRYPTOGRAPHIC_USAGE_MASK, [
         CUM.ENCRYPT, CUM.DECRYPT, CUM.DERIVE_KEY, CUM.MAC_GENERATE, CUM.WRAP_KEY])] +
@@ -34,6 +38,8 @@ def _seed_world():
     w.do((1, 2), W.p_activate('4'))
     # 5: alice's pre-active key (can be modified and destroyed)
     w.do((1, 2), W.p_create(W.sym_attrs(masks=[CUM.ENCRYPT], names=['k5', 'k5b'])))
+    # 6: a key of alice's under the 'team' policy (group g1 may do everything with it)
+    w.do((1, 2), W.p_create(W.sym_attrs(masks=[CUM.ENCRYPT], policy='team')), groups=['g1'])
     return w
 
 
@@ -94,6 +100,13 @@ for _sp, _lbl in (('5', '5'), ('05', '05'), (' 5', 'sp5')):
 ID_FAMILY = [k for k in PREFIX if k.split('.')[1].split('_')[0] in ('get', 'attr', 'rename', 'destroy')
              and k.endswith(('_5', '_05', '_sp5'))]
 
+# the membership family: ONE connection of carol's while her group list in the directory service
+# changes between requests - every request is authorised with the groups the directory reports then
+for _g, _lbl in ((['g1'], 'g1'), (['g2'], 'g2'), ([], 'none'), (['g2', 'g1'], 'g2g1')):
+    PREFIX['d.%s.get6' % _lbl] = ('carol', (1, 2), (lambda: [W.p_get('6')]), {'_dir': _g})
+    PREFIX['d.%s.locate' % _lbl] = ('carol', (1, 4), (lambda: [W.p_locate()]), {'_dir': _g})
+DIR_FAMILY = [k for k in PREFIX if k.startswith('d.')]
+
 # engine seam (no codec on the way in): header handling for versions the decoder never lets through
 PREFIX['e.a15.query'] = ('alice', (1, 5), lambda: [W.p_query()], {'_seam': 'engine'})
 PREFIX['e.b30.create'] = ('bob', (3, 0), lambda: [W.p_create()], {'_seam': 'engine'})
@@ -153,6 +166,11 @@ _add('g12.locate', 'carol', (1, 2), lambda: [W.p_locate()], _groups=['g1'])
 _add('a12.batch_get_first', 'alice', (1, 2), lambda: [W.p_get(), W.p_create()],
      error_option=E.BatchErrorContinuationOption.CONTINUE)
 
+# membership-family probes
+for _g, _lbl in ((['g1'], 'g1'), (['g2'], 'g2'), ([], 'none')):
+    _add('d.%s.get6' % _lbl, 'carol', (1, 2), (lambda: [W.p_get('6')]), _dir=_g)
+    _add('d.%s.get_attributes6' % _lbl, 'carol', (2, 0), (lambda: [W.p_get_attributes('6')]), _dir=_g)
+    _add('d.%s.locate' % _lbl, 'carol', (1, 2), (lambda: [W.p_locate()]), _dir=_g)
 # identifier-family probes
 for _sp, _lbl in (('5', '5'), ('05', '05')):
     _add('a12.get_%s' % _lbl, 'alice', (1, 2), (lambda _sp=_sp: [W.p_get(_sp)]))
@@ -181,6 +199,10 @@ def _apply(w, spec):
     user, version, builder, hdr = spec
     hdr = dict(hdr)
     groups = hdr.pop('_groups', None)
+    if '_dir' in hdr:
+        W.SLUGS_DIRECTORY.clear()
+        W.SLUGS_DIRECTORY[user] = list(hdr.pop('_dir'))
+        groups = 'directory'
     if hdr.pop('_seam', None) == 'engine':
         return w.engine_direct(W.build_request(version, builder(), **hdr), (user, groups))
     return w.do(version, builder(), user=user, groups=groups, **hdr)
@@ -254,14 +276,18 @@ CORE = ['a12.create', 'b20.create', 'a12.batch_create_get', 'a10.get_missing', '
 def histories(tier):
     """Quick: every prefix of length 0..1, and length 2 with the first letter from CORE.
     Thorough: every prefix of length 0..2, and length 3 with the first two letters from CORE."""
-    full = [k for k in PREFIX if k not in ID_FAMILY]
+    full = [k for k in PREFIX if k not in ID_FAMILY and k not in DIR_FAMILY]
     out = [()] + [(a,) for a in PREFIX]
+    out += [(a, b) for a in DIR_FAMILY for b in DIR_FAMILY]
     # the identifier family: all histories of length 2 (and 3 in the thorough tier) among its letters
     out += [(a, b) for a in ID_FAMILY for b in ID_FAMILY]
     if tier != 'quick':
         out += [(a, b, c) for a in ID_FAMILY for b in ID_FAMILY for c in ID_FAMILY if len({a, b, c}) == 3]
     if tier == 'quick':
-        out += [(a, b) for a in CORE for b in full]
+        # second letters: everything but the less consequential header letters
+        light = ('a12.stop', 'a12.order_true', 'a12.order_false', 'a12.maxsize_big', 'a12.async_false',
+                 'a12.timestamp', 'a12.ids_all', 'a20.continue', 'a12.continue')
+        out += [(a, b) for a in CORE for b in full if b not in light]
     else:
         out += [(a, b) for a in full for b in full]
         out += [(a, b, c) for a in CORE for b in CORE for c in full]
@@ -292,10 +318,17 @@ def run(tier, seed):
     n = 64
     id_probes = [p_ for p_ in probes if p_.endswith(('_5', '_05', 'locate_k5'))] + [
         'a12.locate', 'a12.get', 'a12.create', 'a20.get_attribute_list']
+    dir_probes = [p_ for p_ in probes if p_.startswith('d.')] + ['a12.locate', 'a12.get']
+    dirh = [h for h in hs if len(h) >= 2 and all(x in DIR_FAMILY for x in h)]
     idh = [h for h in hs if len(h) >= 2 and all(x in ID_FAMILY for x in h)]
-    rest = [h for h in hs if h not in set(idh)]
-    tasks = [(rest[i::n], probes) for i in range(n) if rest[i::n]]
+    rest = [h for h in hs if h not in set(idh) and h not in set(dirh)]
+    general = [p_ for p_ in probes if p_ not in id_probes[:-4] and not p_.startswith('d.')]
+    short = [h for h in rest if len(h) <= 1]
+    longer = [h for h in rest if len(h) > 1]
+    tasks = [(short[i::16], probes) for i in range(16) if short[i::16]]
+    tasks += [(longer[i::n], general if tier == 'quick' else probes) for i in range(n) if longer[i::n]]
     tasks += [(idh[i::16], id_probes) for i in range(16) if idh[i::16]]
+    tasks += [(dirh[i::8], dir_probes) for i in range(8) if dirh[i::8]]
     outcomes = set()
     for part in pmap(_worker, tasks):
         outcomes.update(tuple(o)
